@@ -122,6 +122,13 @@ CLAIMED = {
              '(every well-known name, all a:b) and large communities: construct/parse contracts. String handling runs on structured strings.',
         note='traffic-rate (IEEE float) not covered; 4-octet-AS targets need the peer capability as the view demands; LARGE_COMMUNITIES flag octet is an open known finding',
         ref='5 C17'),
+    'C19': dict(
+        text='update_rib_in_ipv4 / update_rib_out_ipv4: post-table == APPLY(pre-table, update) and counter delta == number of table changes, for '
+             'arbitrary tables over a three-prefix pool, arbitrary attribute values and update lists of up to two entries (repetitions included); '
+             'both tables are empty after connectionMade / connectionLost from arbitrary tables; flowspec version bookkeeping (new / unchanged / '
+             'changed rule) incl. the remembered attributes. The receive-path tuple/list comparison defect is an open known finding.',
+        note='pool-based data-independence argument and induction over the per-prefix loop (T5); radix index opaque; CONF.bgp.rib on',
+        ref='5 C19'),
 }
 checks = []
 for pid, c in CLAIMED.items():
